@@ -179,6 +179,28 @@ func pruneChild(prop, tier string, idx, nb int) int {
 			return 0
 		}
 	}
+	// finalizePending finalizes, in order, every sealed block above the last finalized one (operation hooks may seal
+	// blocks themselves, e.g. after a payFees transaction)
+	finalizePending := func() bool {
+		var pend []*block.Block
+		for b := h.Head; b != nil && b.Round > lastFinal; b = b.PrevBlock {
+			pend = append([]*block.Block{b}, pend...)
+		}
+		for _, b := range pend {
+			s, err := snap.Take(b.ClientState)
+			if err != nil {
+				run.Inconclusive("snapshot of executed block failed: " + err.Error())
+				return false
+			}
+			recorded[b.Round], roots[b.Round] = s, append([]byte{}, b.ClientStateHash...)
+			if !finalize(b) {
+				delete(recorded, b.Round)
+				delete(roots, b.Round)
+				return false
+			}
+		}
+		return true
+	}
 	for h.Round < int64(nb) {
 		k := 1 + r.Intn(3)
 		for i := 0; i < k; i++ {
@@ -192,20 +214,14 @@ func pruneChild(prop, tier string, idx, nb int) int {
 				h.S.Accepted = append(h.S.Accepted, ob.Txn)
 			}
 		}
-		if h.BC == nil {
+		h.EndBlock()
+		if h.Head.Round <= lastFinal {
 			continue
 		}
-		h.EndBlock()
+		if !finalizePending() {
+			break
+		}
 		b := h.Head
-		s, err := snap.Take(b.ClientState)
-		if err != nil {
-			run.Inconclusive("snapshot of executed block failed: " + err.Error())
-			break
-		}
-		recorded[b.Round], roots[b.Round] = s, append([]byte{}, b.ClientStateHash...)
-		if !finalize(b) {
-			break
-		}
 		h.advanceTime(r)
 		if b.Round%7 == 0 || b.Round%100 == int64(pruneBelow)+1 {
 			before := pruneDeleted(c)
